@@ -1541,3 +1541,146 @@ func (c *Ctx) rulesR4histsib() {
 		c.undecided(fmt.Sprintf("C17.sib: %d trackers / %d list decisions recognised (expected 4 / >= 12)", nf, n))
 	}
 }
+
+// rulesR4lastpass: C17.lastpass
+func (c *Ctx) rulesR4lastpass() {
+	c.rule("C17.lastpass", "the key-value history backends (bbolt, badger) walk the stored records one step behind the one they read (the variable `older` holds a record that has been read but not checked yet): the loop of FindLatest is only left with such a record pending when the result limit was reached. Leaving it on a missing key or at the end of the id range while `older` is set drops the oldest stored record from every query, which the in-memory backend returns")
+	n := 0
+	for _, f := range c.Funcs {
+		if f.Parent() == nil || f.Parent().Name() != "FindLatest" || topFunc(f).Pkg == nil {
+			continue
+		}
+		rel := relPkg(topFunc(f).Pkg.Pkg.Path())
+		if rel != ph+"/bbolt" && rel != ph+"/badger" {
+			continue
+		}
+		// loop header: the block of the loop-carried phi `older`
+		var older *ssa.Phi
+		for _, b := range f.Blocks {
+			for _, ins := range b.Instrs {
+				if p, ok := ins.(*ssa.Phi); ok && p.Comment == "older" {
+					isHdr := false
+					for _, pr := range b.Preds {
+						if b.Dominates(pr) {
+							isHdr = true
+						}
+					}
+					if isHdr && older == nil {
+						older = p
+					}
+				}
+			}
+		}
+		if older == nil {
+			continue
+		}
+		h := older.Block()
+		body := map[*ssa.BasicBlock]bool{h: true}
+		var stack []*ssa.BasicBlock
+		for _, p := range h.Preds {
+			if h.Dominates(p) && !body[p] {
+				body[p] = true
+				stack = append(stack, p)
+			}
+		}
+		for len(stack) > 0 {
+			x := stack[len(stack)-1]
+			stack = stack[:len(stack)-1]
+			for _, p := range x.Preds {
+				if !body[p] {
+					body[p] = true
+					stack = append(stack, p)
+				}
+			}
+		}
+		isOlderNil := func(g Guard) bool {
+			g = expandGuard(g)[0]
+			bo, ok := g.Cond.(*ssa.BinOp)
+			if !ok {
+				return false
+			}
+			isNil := func(v ssa.Value) bool { k, ok := v.(*ssa.Const); return ok && k.IsNil() }
+			isOlder := func(v ssa.Value) bool {
+				return flowsFrom(v, func(x ssa.Value) bool {
+					p, ok := x.(*ssa.Phi)
+					return ok && p.Comment == "older"
+				})
+			}
+			if !((isOlder(bo.X) && isNil(bo.Y)) || (isOlder(bo.Y) && isNil(bo.X))) {
+				return false
+			}
+			return (bo.Op == token.EQL && g.Pol) || (bo.Op == token.NEQ && !g.Pol)
+		}
+		mentionsLimit := func(g Guard) bool {
+			found := false
+			valueTree(g.Cond, 8, func(v ssa.Value) {
+				switch x := v.(type) {
+				case *ssa.FreeVar:
+					if x.Name() == "limit" {
+						found = true
+					}
+				case *ssa.Parameter:
+					if x.Name() == "limit" {
+						found = true
+					}
+				}
+			})
+			return found
+		}
+		type exit struct {
+			b  *ssa.BasicBlock
+			si int
+		}
+		var exits []exit
+		for _, b := range f.Blocks {
+			if !body[b] {
+				continue
+			}
+			for si, s := range b.Succs {
+				if body[s] {
+					continue
+				}
+				if len(s.Instrs) > 0 {
+					if r, ok := s.Instrs[len(s.Instrs)-1].(*ssa.Return); ok {
+						allNil := true
+						for _, v := range retVals(r) {
+							if kc, ok := v.(*ssa.Const); !ok || !kc.IsNil() {
+								allNil = false
+							}
+						}
+						if allNil {
+							continue
+						}
+					}
+				}
+				exits = append(exits, exit{b, si})
+			}
+		}
+		for i, e := range exits {
+			n++
+			gs := guardsOf(e.b)
+			if len(e.b.Instrs) > 0 {
+				if ifi, ok := e.b.Instrs[len(e.b.Instrs)-1].(*ssa.If); ok {
+					gs = append(gs, Guard{Cond: ifi.Cond, Pol: e.si == 0, If: ifi})
+				}
+			}
+			good := false
+			for _, g := range gs {
+				if isOlderNil(g) || mentionsLimit(g) {
+					good = true
+				}
+			}
+			pos := f.Pos()
+			for _, in2 := range e.b.Instrs {
+				if in2.Pos().IsValid() {
+					pos = in2.Pos()
+				}
+			}
+			c.check(good, "C17.lastpass", fmt.Sprintf("%s: loop exit#%d leaves no unchecked record behind", funcKey(f), i+1), pos,
+				"the record walk is left here without `older == nil` (and not because the limit was reached): the record held in `older`, the oldest one, is never checked nor returned")
+		}
+	}
+	if n < 4 {
+		c.undecided(fmt.Sprintf("C17.lastpass: only %d loop exits found in the bbolt/badger FindLatest walks (expected >= 4)", n))
+	}
+}
